@@ -5,6 +5,10 @@ package tlcp
 // Pair runner for the stream stack: two unmodified endpoints over the stream simulator.
 
 import (
+	"time"
+	"path/filepath"
+	"os"
+	"strings"
 	"errors"
 	"fmt"
 	"io"
@@ -94,7 +98,33 @@ func vfRunPair(ccfg, scfg *Config, opt vfPairOpt) *vfPair {
 	r.CS, r.SS = cli.ConnectionState(), srv.ConnectionState()
 	r.CFin = [2][12]byte{cli.clientFinished, cli.serverFinished}
 	r.SFin = [2][12]byte{srv.clientFinished, srv.serverFinished}
+	vfTrapSM2(r, scfg)
 	return r
+}
+
+// vfTrapSM2 keeps what was on the wire when a client rejects a ServerKeyExchange signature, so that the
+// signature can be verified offline (diagnosis of a rare failure of honest handshakes; see DESIGN 6.3).
+func vfTrapSM2(r *vfPair, scfg *Config) {
+	if r.CErr == nil || !strings.Contains(r.CErr.Error(), "sm2 verification failure") {
+		return
+	}
+	dir := os.Getenv("VERIF_DIR")
+	if dir == "" {
+		return
+	}
+	a, _ := r.Sim.snapshot(0)
+	b, _ := r.Sim.snapshot(1)
+	a2 := r.Sim.ends[0].sentOut
+	b2 := r.Sim.ends[1].sentOut
+	var certs string
+	for _, c := range scfg.Certificates {
+		if len(c.Certificate) > 0 {
+			certs += fmt.Sprintf("%x\n", c.Certificate[0])
+		}
+	}
+	os.MkdirAll(filepath.Join(dir, ".work", "sm2trap"), 0o755)
+	name := filepath.Join(dir, ".work", "sm2trap", fmt.Sprintf("%d-%d.txt", os.Getpid(), time.Now().UnixNano()))
+	os.WriteFile(name, []byte(fmt.Sprintf("cerr %v\nserr %v\nc2s-wrote %x\ns2c-wrote %x\nc2s-delivered %x\ns2c-delivered %x\nservercerts\n%s", r.CErr, r.SErr, a, b, a2, b2, certs)), 0o644)
 }
 
 // vfWire returns the records each side wrote (before any MITM edit).
